@@ -18,7 +18,7 @@ RULE = ("cases from rng(seed, 8, 0, i): relation = i mod 7 of " + ", ".join(RELS
         "distinct = fingerprint(spec, relation, K); non-trivial = the relation changed the representation (e.g. at least one quaternion negated / id changed) and the "
         "optimizer moved some vertex by > 1e-6.")
 REQ = ["eval:chi2-representation-invariant", "eval:result-representation-invariant"] + ["rel:" + r for r in RELS] + [
-    "class:info_cross_terms", "class:info_blockdiag", "class:negated_vertex_quat", "class:negated_measurement_quat", "class:negated_offset_quat", "class:run_to_convergence", "class:fix_first_pose=True", "class:fix_first_pose=False"]
+    "class:info_cross_terms", "class:info_blockdiag", "class:negated_vertex_quat", "class:negated_measurement_quat", "class:negated_offset_quat", "class:run_to_convergence", "class:fix_first_pose=True", "class:fix_first_pose=False", "class:objects_reused_in_second_graph", "class:split_graph_through_file"]
 PLAN = {
     "quick": {"cases": 1400, "soft_s": 90, "min_nontrivial": 400, "require": REQ},
     "thorough": {"cases": 56000, "soft_s": 1500, "min_nontrivial": 12000, "require": REQ},
@@ -176,6 +176,49 @@ def relation_check(ctx, rng, spec, rel, mode, cross, cond_max=1e8):
     if mode:
         # chi2 reports must agree as well (scaled)
         ctx.close("final-chi2-representation-invariant", r2.final_chi2, c * r1.final_chi2, max(c, 1) * (1e-7 * max(1.0, amp / 64) * abs(r1.final_chi2) + bound * 1e3 + 1e-20), feats, None, case)
+    if rel in ("permute_vertices", "permute_edges") and mode:
+        # history / object reuse: after K iterations, re-list the *same* vertex and edge objects in another order in a second Graph and continue there;
+        # continuing on the original graph must give the same result (nothing remembered on the objects may depend on the old listing)
+        try:
+            ga, gb = M.build(spec), M.build(spec)
+            M.quiet_optimize(ga, fix_first_pose=False, max_iter=mode, tol=0.0)
+            M.quiet_optimize(gb, fix_first_pose=False, max_iter=mode, tol=0.0)
+            pv, pe = rng.permutation(len(gb._vertices)), rng.permutation(len(gb._edges))
+            g_re = M.Graph([gb._edges[int(j)] for j in pe], [gb._vertices[int(j)] for j in pv])
+            M.quiet_optimize(ga, fix_first_pose=False, max_iter=2, tol=0.0)
+            M.quiet_optimize(g_re, fix_first_pose=False, max_iter=2, tol=0.0)
+            by = {v.id: v for v in g_re._vertices}
+            wr = 0.0
+            for v in ga._vertices:
+                p, q = M.fl(v.pose), M.fl(by[v.id].pose)
+                if not all(math.isfinite(x) for x in p + q):
+                    wr = math.inf
+                    continue
+                dt, dr = M.pose_distance(M.kind(v.pose), p, q)
+                wr = max(wr, dt, dr)
+            ctx.check("result-representation-invariant", wr <= tol * 16, dict(feats, variant="same objects re-listed in a second Graph"), {"worst": wr, "tol": tol * 16}, case)
+            ctx.count("class:objects_reused_in_second_graph")
+        except Exception as ex:
+            ctx.check("result-representation-invariant", False, dict(feats, variant="same objects re-listed in a second Graph", exception=type(ex).__name__), {"message": str(ex)[:300]}, case)
+    if rel == "split_edge" and changed and all(e["type"] == "odo" and e["est_kind"] in ("se2", "se3") for e in spec2["edges"]) and all(v["kind"] in ("se2", "se3") for v in spec2["vertices"]):
+        # the split graph through the file entry point: written and read back it is still the same physical graph (two identical half-information lines)
+        import os
+        import tempfile
+
+        dtmp = tempfile.mkdtemp(prefix="c08-", dir=os.environ.get("VF_SCRATCH"))
+        try:
+            pth = os.path.join(dtmp, "split.g2o")
+            M.build(spec2).to_g2o(pth)
+            gl = M.Graph.from_g2o(pth)
+            with np.errstate(all="ignore"):
+                cl = float(gl.calc_chi2())
+            ctx.close("chi2-representation-invariant", cl, c * c0, max(c, 1.0) * bound * 4 + 1e-9 * abs(c0), dict(feats, variant="split graph written to .g2o and read back"),
+                      {"n_edges": [len(spec2["edges"]), len(gl._edges)]}, case)
+            ctx.count("class:split_graph_through_file")
+        finally:
+            import shutil
+
+            shutil.rmtree(dtmp, ignore_errors=True)
     return spec2, c, changed, c0, c1, worst, tol, moved
 
 
